@@ -53,13 +53,57 @@ def brownian_programs():
     P.append(Prog('agg2', 'Brownian', lambda B: pb.aggregate(B, 2, False), _sample_agg(2, False), props=('C03',)))
     P.append(Prog('agg3', 'Brownian', lambda B: pb.aggregate(B, 3, False), _sample_agg(3, False), props=('C03',)))
     P.append(Prog('agg2A', 'Brownian', lambda B: pb.aggregate(B, 2, True), _sample_agg(2, True), props=('C03',)))
-    P.append(Prog('levy_davie', 'Brownian', lambda B: pb.levy(B, LA.davie), _sample_levy, props=('C03', 'C04')))
-    P.append(Prog('levy_foster', 'Brownian', lambda B: pb.levy(B, LA.foster), _sample_levy, props=('C03', 'C04')))
+    P.append(Prog('levy_davie', 'Brownian', lambda B: pb.levy(B, LA.davie), _sample_levy, props=('C03', 'C04'), tol=1e-15))
+    P.append(Prog('levy_foster', 'Brownian', lambda B: pb.levy(B, LA.foster), _sample_levy, props=('C03', 'C04'),
+                  tol=1e-15, note='torch tensor .sqrt() is not always correctly rounded (1 ulp vs libm observed)'))
     P.append(Prog('reverse_bm', 'Brownian', pb.reverse_bm,
                   lambda rng: dict(ta=-rng.uniform(1, 2), tb=-rng.uniform(0, 1), Wb=rng.gauss(0, 1), Ub=rng.gauss(0, 1)),
                   props=('C03',)))
     return P
 
 
+SOLVER_TABLE = [
+    # method, sde_type, noise types
+    ('euler', 'ito', ['diagonal', 'additive', 'scalar', 'general']),
+    ('milstein', 'ito', ['diagonal', 'additive', 'scalar']),
+    ('milstein', 'stratonovich', ['diagonal', 'additive', 'scalar']),
+    ('srk', 'ito', ['diagonal', 'additive', 'scalar']),
+    ('euler_heun', 'stratonovich', ['diagonal', 'additive', 'scalar', 'general']),
+    ('heun', 'stratonovich', ['diagonal', 'additive', 'scalar', 'general']),
+    ('midpoint', 'stratonovich', ['diagonal', 'additive', 'scalar', 'general']),
+    ('log_ode', 'stratonovich', ['diagonal', 'additive', 'scalar', 'general']),
+    ('reversible_heun', 'stratonovich', ['diagonal', 'additive', 'scalar', 'general']),
+]
+
+
+def step_name(method, sde_type, noise, d, m, gf=False):
+    return f"{method}_{sde_type[0]}_{noise}_{d}{m}" + ('_gf' if gf else '')
+
+
+def solver_programs():
+    from . import prog_solvers as ps
+    P = []
+    for method, sde_type, noises in SOLVER_TABLE:
+        for noise in noises:
+            dims = [(1, 1)]
+            if noise == 'general':
+                dims.append((2, 2))
+            if noise == 'diagonal':
+                dims.append((2, 2))
+            if noise == 'additive' and method in ('euler', 'heun', 'midpoint', 'euler_heun', 'reversible_heun', 'log_ode'):
+                dims.append((2, 2))
+            for d, m in dims:
+                variants = [False]
+                if method == 'milstein' and noise != 'additive':
+                    variants.append(True)
+                for gf in variants:
+                    fn, sample, funcs = ps.make_step(method, sde_type, noise, d, m,
+                                                     options={'grad_free': True} if gf else None)
+                    tol = 1e-12 if (method in ('milstein', 'log_ode') and not gf) else (4e-16 if method == 'srk' or gf else 0.0)
+                    P.append(Prog(step_name(method, sde_type, noise, d, m, gf), 'Steps', fn, sample, funcs=funcs, tol=tol,
+                                  props=('C02',)))
+    return P
+
+
 def all_programs():
-    return brownian_programs()
+    return brownian_programs() + solver_programs()
